@@ -678,7 +678,10 @@ def corpus_jobs(prop: str) -> list[dict]:
     if d.exists():
         for f in sorted(d.glob('*.json')):
             try:
-                js = json.loads(f.read_text())['job']
+                d = json.loads(f.read_text())
+                if 'job' not in d:
+                    continue            # call-type corpus cases are handled by the property module
+                js = d['job']
                 js['tag'] = 'corpus:' + f.stem
                 out.append(js)
             except Exception:  # noqa
